@@ -320,6 +320,8 @@ func lint(args []string, params *lintCommandParams) (report.Report, error) {
 		regal = regal.WithUserConfig(userConfig)
 	case params.configFile != "":
 		return report.Report{}, fmt.Errorf("user-provided config file not found: %w", err)
+	case errors.Is(err, config.ErrConflictingConfigFiles):
+		return report.Report{}, fmt.Errorf("failed to find user config: %w", err)
 	case params.debug:
 		log.Println("no user-provided config file found, will use the default config")
 	}
